@@ -1,7 +1,7 @@
 (* C06 — Combined and named calendars mean the union of their parts. *)
 From Coq Require Import ZArith List Bool String.
 From RL Require Import Base.Outcome Model.Dates Model.Calendar Model.Named Gen.NameWiring
-  Proofs.CalendarP Proofs.NamedP.
+  Proofs.CalendarP Proofs.NamedP Proofs.CalExt.
 Import ListNotations.
 Open Scope Z_scope.
 
@@ -66,6 +66,14 @@ Proof. exact cal_eq_ucal_spec. Qed.
 Theorem C06_eq_cal_named : forall c n, cal_eq_ncal c n = true <->
   forall d, d1970 <= d <= d2200 -> cal_is_bus c d = ncal_is_bus n d /\ cal_is_settle c d = ncal_is_settle n d.
 Proof. exact cal_eq_ncal_spec. Qed.
+
+(* what a plain calendar IS: its business-day, holiday, weekday and settlement predicates see the two lists only through
+   membership (same_listing: same excluded weekdays, same holidays, any order, any repetitions) - hence, by the
+   equality theorems above, such calendars compare equal to exactly the same calendars *)
+Theorem C06_listing_free : forall c c', same_listing c c' ->
+  forall d, cal_is_bus c d = cal_is_bus c' d /\ cal_is_holiday c d = cal_is_holiday c' d /\
+            cal_is_weekday c d = cal_is_weekday c' d /\ cal_is_settle c d = cal_is_settle c' d.
+Proof. exact cal_pred_listing_free. Qed.
 
 (* the supported range is 1970-01-01 .. 2200-12-31 *)
 Example C06_range : days_from_civil 1970 1 1 = d1970 /\ days_from_civil 2200 12 31 = d2200.
